@@ -281,6 +281,13 @@ def traced(name):
     return pol
 
 
+def ts_new_list(eng, items, st):
+    if items == [] and not [e for e in st.trace if e[0] == 'output-list-made']:
+        st.trace.append(('output-list-made',))
+        return V('ref', cls='OutList', oid='the-output-list')
+    return None
+
+
 def sort_pass(c, L):
     ev = since(c.trace, 0)
     if not ev:
@@ -288,8 +295,8 @@ def sort_pass(c, L):
     ev = [e for e in ev if e[0] in ('pop', 'arrange', 'init', 'cleanup')]
     if [e[0] for e in ev] != ['pop', 'arrange']:
         return z3.BoolVal(False)
-    out = c.st.env.get('out_stack')
-    ok = ev[1][1] is ev[0][1] and len(ev[1][2]) == 1 and ev[1][2][0] is out       # the popped unit, onto THE output list
+    out = ev[1][2][0] if len(ev[1][2]) == 1 else None
+    ok = (ev[1][1] is ev[0][1] and out is not None and out.k == 'ref' and out.oid == 'the-output-list')   # the popped unit, onto THE output list
     return z3.BoolVal(bool(ok))
 
 
@@ -297,9 +304,8 @@ def sort_post(c):
     t = [e for e in c.trace if e[0] in ('init', 'cleanup', 'loop-head', 'pop', 'arrange')]
     kinds = [e[0] for e in t if e[0] != 'loop-head']
     ch = c.post.self.v('_children')
-    out = c.st.env.get('out_stack')
     ok = (kinds[:1] == ['init'] and kinds[-1:] == ['cleanup'] and kinds.count('init') == 1
-          and kinds.count('cleanup') == 1 and ch is out)                          # the output list becomes the table
+          and kinds.count('cleanup') == 1 and ch.k == 'ref' and ch.oid == 'the-output-list')   # the output list becomes the table
     return z3.BoolVal(bool(ok))
 
 
@@ -307,10 +313,10 @@ contract(FS, 'SynthDef._topological_sort', props=('C02',), params={'self': 'self
          ensures=[('initialised,drained,the-output-list-becomes-the-unit-table,cleaned-up', sort_post)],
          loops={0: Loop(inv=sort_pass, kinds={'ugen': (lambda eng, n: V('obj', oid='havoc'))})},
          modifies=[('self', '_children')],
-         fields={'SynthDef': {'_available': 'obj', '_children': 'obj'}, 'Popped': {}},
-         hooks={'getattr': h_getattr, 'len': ts_len},
+         fields={'SynthDef': {'_available': 'obj', '_children': 'obj'}, 'Popped': {}, 'OutList': {}},
+         hooks={'getattr': h_getattr, 'len': ts_len, 'new_list': ts_new_list},
          policies={'SynthDef._init_topo_sort': traced('init'), 'SynthDef._cleanup_topo_sort': traced('cleanup')},
-         class_modules={'SynthDef': FS, 'Popped': F}, native=False,
+         class_modules={'SynthDef': FS, 'Popped': F, 'OutList': FS}, native=False,
          note='termination is not claimed here (every pass pops one unit; finiteness of the releases is the bounded '
               'driver\'s: a cyclic graph leaves units unarranged, which C01/C02 drivers report)')
 
